@@ -9,4 +9,4 @@ Extraction "c17_model.ml"
   umin umax smin smax ldiv sldiv_gen addc
   crc crc_state_run crc_preset
   counter_cfg_end counter_cfg_w counter_cfg_dyn counter_run updown_run
-  counter_never counter_use_in.
+  counter_never counter_use_in adder_run crc_state_run_mixed.
